@@ -11,7 +11,9 @@ EXPLANATION = (
     "a b) is internal a, external b; (import-copies) importing defines new bindings in the importer's "
     'environment; (single-instance) get_library: first use instantiates once (AST and native factories, '
     'registered or found on disk) and caches, a second use returns the cached instance without instantiating, a '
-    'failed instantiation caches nothing.')
+    'failed instantiation caches nothing. (body statements) a definition / syntax definition in a library body '
+    "writes exactly one binding, into the library's own environment, never into the interpreter's environment or "
+    'syntax environment.')
 NOT_DECIDED = ("observational equivalence with a reference module system; what library bodies compute.")
 
 
